@@ -1,4 +1,17 @@
-"""C13  Facet index: hierarchical membership and exact facet counts."""
+"""C13  Facet index: hierarchical membership and exact facet counts.
+
+Generator modes (measured, quick tier, seed 0, 12000 cases): small 92%, bulk 8%; the largest posting reached
+65-120 docids in 5%, 121-300 in 3% of the cases (4.9% of all cases reach >= 65 docids under the class default
+tree_threshold); > 120 withdrawn documents in 0.5%.
+
+Size- / entry-point-dependent mutations tried on scratch copies (VERIF_REPO=/var/tmp/mut_strong1_<N>, deleted
+afterwards), all VIOLATION with a shrunk replay, quick tier, seed 0:
+  M5  counts(): the memo is keyed by the NUMBER of facets of a document when more than 128 docids are given
+  M7  KeywordIndex.search(.., 'and') returns the smallest set without intersecting when it has > 80 docids
+  M10 KeywordIndex.apply({'query': [..]}) defaults to operator 'or'
+  M12 docids() cached on (indexed_count, not_indexed_count)
+and the seeded change C13_D (posting promoted to a TreeSet at tree_threshold, the triggering docid is lost).
+"""
 from lib.core import exc_name, idset
 
 ID = "C13"
@@ -7,14 +20,22 @@ THEOREMS = ["Hyp.Facet." + t for t in (
     "c13_refinement", "c13_membership", "c13_eq", "c13_any", "c13_all", "c13_docids", "c13_noteq", "c13_index_entry",
     "c13_unmatched_unknown", "c13_counts", "c13_counts_matches_spec", "c13_counts_omitted_absent", "c13_counts_unconfigured_absent")]
 CASES = {"quick": 12000, "thorough": 200000}
-BUDGET_S = {"quick": 40, "thorough": 700}
+BUDGET_S = {"quick": 34, "thorough": 660}
 RULE = ("facet sets of 1-7 names from an adversarial pool (a, ab, abc, b, bc, c, a:b, a:b:c, ab:c, bc:c, "
         "non-ASCII, empty segments; contains pairs whose concatenations coincide such as {ab,c}/{a,bc}); "
         "histories of 3-40 (thorough: up to 200) index/reindex/unindex/reset/optimize/set-threshold calls over "
         "docids 0..11 plus extreme ids with path lists matching none/some/nested/duplicated facets, empty "
         "lists and withdrawn values; counts(docids, omit_facets) with known, unknown, facet-less, withdrawn and "
         "repeated ids (lists and query results) and omit lists of facets, descendants and unrelated names; "
-        "Eq/NotEq/Any/NotAny/All/NotAll through index.applyX and query objects; both BTrees families. "
+        "Eq/NotEq/Any/NotAny/All/NotAll through index.applyX and query objects, the inherited apply() itself "
+        "(list, tuple, {'query': ..} with operator and/or/absent, bare string), counts() over the index's own "
+        "docids()/indexed()/not_indexed(), the enumeration tuple (sometimes twice in a row), identical content "
+        "again, unindex twice; segments also upper case, digit, blank, dotted and 40 characters long; both "
+        "BTrees families. bulk mode (8% of the cases): 70-400 documents (dense or strided docid runs anywhere in "
+        "the family's range, any order) so that the first facet's posting holds 65-400 docids, 60% of them under "
+        "the class default tree_threshold (others 64/100/32/200/5), 12% with 121-199 withdrawn documents, 45% "
+        "with a drain of that posting back to 58-66 docids (or nothing), optimize(), then a small history on a few "
+        "ids and counts() over all ids. "
         "non-trivial = some counts answer is non-empty and the answers contain three different values")
 LEVEL_TEXT = ("Lean 4 proof: for every configured facet set and every history the model of FacetIndex (with its "
               "posting representation erased) represents the table docid -> {configured facets that are a "
@@ -230,7 +251,7 @@ def gen_bulk(rng, tier, fam, facets):
     if rng.random() < 0.45:
         members = ids[:s0]
         members = rng.sample(members, len(members))
-        for d in members[rng.randrange(58, 67):]:
+        for d in members[(0 if rng.random() < 0.2 else rng.randrange(58, 67)):]:     # 0: the posting goes away
             r = rng.random()
             if r < 0.5:
                 cmds.append(["unindex", d])
